@@ -2,7 +2,7 @@
 import math
 
 from .. import gen
-from ..predprobe import gen_pred_case, call_pred, in01, alias_clause
+from ..predprobe import gen_pred_case, call_pred, in01, alias_clause, scribble
 from ..rateprobe import exc_detail
 from ..util import KIND, EPS
 
@@ -122,7 +122,10 @@ def probe_pw(ctx, payload):
             ctx.violation("monotone", "pw", payload, bad, model, reg)
     ctx.case(dict(c=case, p=perm, i=payload["inc"]), k >= 3 or changed)
     if k >= 3 and len(ctx.samples) < 3 and ctx.rng.random() < 0.01:
-        ctx.sample(dict(case=case, predict_win=w, permuted=o2.res, perm=perm, after_increment=o3.res, inc=payload["inc"]))
+        ctx.sample(dict(case=case, predict_win=list(w), permuted=list(o2.res or []), perm=perm,
+                        after_increment=list(o3.res or []), inc=payload["inc"]))
+    for r_ in (w, o2.res, o3.res):
+        scribble(r_)  # returned lists belong to the caller: editing them must not influence any later call
 
 
 PROBES = {"pw": probe_pw}
